@@ -1246,7 +1246,7 @@ func runRing(h *harness, senders []*sender, nOps int, start int64) {
 	wQuery := r.Src.Range(4, 20, "w_query")
 	wSink := r.Src.Range(1, 6, "w_sink")
 	for i := 0; i < nOps; i++ {
-		switch r.Src.Weighted([]int{40, wRoll, wQuery, wSink, 3, 3, 2}, "op") {
+		switch r.Src.Weighted([]int{40, wRoll, wQuery, wSink, 3, 3, 2}, "sched_op") {
 		case 0:
 			h.opFlows(senders)
 		case 1:
@@ -1337,7 +1337,7 @@ func runLoop(h *harness, senders []*sender, nOps int, start int64) {
 		return true
 	}
 	for i := 0; i < nOps; i++ {
-		switch r.Src.Weighted([]int{40, wRoll, wQuery, wSink, 3, 2}, "op") {
+		switch r.Src.Weighted([]int{40, wRoll, wQuery, wSink, 3, 2}, "sched_op") {
 		case 0:
 			h.opFlows(senders)
 		case 1: // time moves on to the moment the timer expires (possibly a little later) and the rollover runs
